@@ -33,5 +33,10 @@
 #define VERIF_LOOP_Zipf_reject __CPROVER_assigns(x, t, RNG_STATE_FRAME) __CPROVER_loop_invariant(1 == 1)
 #endif
 
+/* ---- src/lib/topology/topology.c: retry until a region different from the source is drawn (partial correctness) */
+#ifndef VERIF_LOOP_mesh_retry
+#define VERIF_LOOP_mesh_retry __CPROVER_assigns(ret, RNG_STATE_FRAME) __CPROVER_loop_invariant(1 == 1)
+#endif
+
 #endif /* !VERIF_NATIVE */
 #endif
